@@ -245,7 +245,7 @@ def run(r):
         "/proc/self/fd and /proc/*/stat as the observation of descriptors and child processes",
     ]
     r.assumptions += [
-        "prims_respect / mods_respect: every primitive and modifier emits only the backend calls its purity label allows (validated per primitive on the recording backend; four labelled exceptions are reported as findings)",
+        "prims_respect / mods_respect: every primitive and modifier emits only the backend calls its purity label allows (validated per primitive on the recording backend on every run; the four former exceptions were repaired by 1cead72, d78a439, 06086d8)",
         "macros_ok: recursive index-macro calls (Node::CallMacro, accepted by is_min_purity without inspection) point to functions that are themselves accepted",
         "the interpreter's own node kinds (push, unpack, under-stack moves, labels, format, bind) call no backend method other than the ambient clock",
         "explicit comptime(...) and code macros (<-^) are compile-time execution by design of the language: outside the gate theorems, inside the search",
@@ -458,6 +458,30 @@ def run(r):
                             "compiles_with_backend_calls": s.get("nonempty_logs"), "fully_folded_roots": s.get("folded_roots"),
                             "scratch_changed": s.get("scratch_changed"), "descriptors": [s.get("fd_before"), s.get("fd_after")],
                             "children": [s.get("children_before"), s.get("children_after")], "violation_keys": sorted(seen)}
+
+    # ---- regression corpus: the inputs of the repaired findings (fix commits 1cead72, d78a439, 06086d8),
+    #      compiled in editor mode with the recorder attached: nothing may be folded, printed or opened
+    os.makedirs(scratch + "-reg", exist_ok=True)
+    regf = os.path.join(scratch + "-reg", "in.txt")
+    with open(regf, "w") as f:
+        f.write("hello file\n")
+    corpus = [("°? 5", "stderr-written-while-compiling/lsp"), ("°dump∘ 1 2", "stderr-written-while-compiling/lsp"),
+              ('&fo "%s"' % regf, "descriptor-opened-at-compile-time/lsp"), ('⍜&fo⋅5 "%s"' % regf, "descriptor-opened-at-compile-time/lsp")]
+    reg = []
+    for src, key in corpus:
+        rc, out, err = run_bin("c20", ["one", "Lsp", "# Experimental!\n" + src], seed=r.seed, timeout=120)
+        got = [x for x in json_lines(out) if x.get("k") == "one"]
+        between = err.split("@@BEGIN")[-1].split("@@END")[0].strip() if "@@BEGIN" in err else "?"
+        if not got:
+            r.broken_obligation("regression-corpus", "c20 one failed on %r" % src, (out + err)[-1000:])
+            continue
+        g = got[0]
+        bad = g["folded"] or g["fd_after"] > g["fd_before"] or between != ""
+        reg.append({"program": src, "folded": g["folded"], "descriptors": [g["fd_before"], g["fd_after"]], "stderr": between[:80]})
+        if bad:
+            r.violation(key, "regression: compiling %r in editor mode %s" % (src, "wrote to stderr" if between else "opened a descriptor or pre-evaluated a mutating operation"),
+                        {"program": src, "result": g, "stderr": between[:400], "cmd": "c20 one Lsp '%s'" % src}, theorem="lsp_mode_readonly")
+    r.coverage["regression_corpus"] = reg
 
     # ---- supporting evidence: static containment of host I/O
     hits, nfiles = static_scan()
